@@ -114,6 +114,7 @@ func builtinArrayShift(call FunctionCall) Value {
 	}
 	first := thisObject.get("0")
 	for index := int64(1); index < length; index++ {
+		call.runtime.pollInterrupt(int64(index))
 		from := arrayIndexToString(index)
 		to := arrayIndexToString(index - 1)
 		if thisObject.hasProperty(from) {
@@ -225,6 +226,7 @@ func builtinArraySplice(call FunctionCall) Value {
 		// Move an item from the after the deleted portion
 		// to a position after the inserted portion
 		for index := start; index < stop; index++ {
+			call.runtime.pollInterrupt(int64(index))
 			from := arrayIndexToString(index + deleteCount) // Position just after deletion
 			to := arrayIndexToString(index + itemCount)     // Position just after splice (insertion)
 			if thisObject.hasProperty(from) {
@@ -237,6 +239,7 @@ func builtinArraySplice(call FunctionCall) Value {
 		// We don't bother to delete below <stop + itemCount> (if any) since those
 		// will be overwritten anyway
 		for index := length; index > (stop + itemCount); index-- {
+			call.runtime.pollInterrupt(int64(index))
 			thisObject.delete(arrayIndexToString(index-1), true)
 		}
 	} else if itemCount > deleteCount {
@@ -248,6 +251,7 @@ func builtinArraySplice(call FunctionCall) Value {
 		// Move an item from the after the deleted portion
 		// to a position after the inserted portion
 		for index := length - deleteCount; index > start; index-- {
+			call.runtime.pollInterrupt(int64(index))
 			from := arrayIndexToString(index + deleteCount - 1)
 			to := arrayIndexToString(index + itemCount - 1)
 			if thisObject.hasProperty(from) {
@@ -299,6 +303,7 @@ func builtinArrayUnshift(call FunctionCall) Value {
 	itemCount := int64(len(itemList))
 
 	for index := length; index > 0; index-- {
+		call.runtime.pollInterrupt(int64(index))
 		from := arrayIndexToString(index - 1)
 		to := arrayIndexToString(index + itemCount - 1)
 		if thisObject.hasProperty(from) {
@@ -332,6 +337,7 @@ func builtinArrayReverse(call FunctionCall) Value {
 	middle := length / 2 // Division will floor
 
 	for lower.index != middle {
+		call.runtime.pollInterrupt(int64(lower.index))
 		lower.name = arrayIndexToString(lower.index)
 		upper.index = length - lower.index - 1
 		upper.name = arrayIndexToString(upper.index)
@@ -447,6 +453,7 @@ func arraySortQuickPartition(thisObject *object, left, right, pivot uint, compar
 	cursor := left
 	cursor2 := left
 	for index := left; index < right; index++ {
+		thisObject.runtime.pollInterrupt(int64(index))
 		comparison := sortCompare(thisObject, index, right, compare) // Compare to the pivot value
 		if comparison < 0 {
 			arraySortSwap(thisObject, index, cursor)
@@ -509,6 +516,7 @@ func builtinArrayIndexOf(call FunctionCall) Value {
 			index = -1
 		}
 		for ; index >= 0 && index < length; index++ {
+			call.runtime.pollInterrupt(int64(index))
 			name := arrayIndexToString(index)
 			if !thisObject.hasProperty(name) {
 				continue
@@ -541,6 +549,7 @@ func builtinArrayLastIndexOf(call FunctionCall) Value {
 		return intValue(-1)
 	}
 	for ; index >= 0; index-- {
+		call.runtime.pollInterrupt(int64(index))
 		name := arrayIndexToString(index)
 		if !thisObject.hasProperty(name) {
 			continue
@@ -560,6 +569,7 @@ func builtinArrayEvery(call FunctionCall) Value {
 	if iterator := call.Argument(0); iterator.isCallable() {
 		callThis := call.Argument(1)
 		for index := range length {
+			call.runtime.pollInterrupt(int64(index))
 			if key := arrayIndexToString(index); thisObject.hasProperty(key) {
 				if value := thisObject.get(key); iterator.call(call.runtime, callThis, value, int64Value(index), this).bool() {
 					continue
@@ -579,6 +589,7 @@ func builtinArraySome(call FunctionCall) Value {
 	if iterator := call.Argument(0); iterator.isCallable() {
 		callThis := call.Argument(1)
 		for index := range length {
+			call.runtime.pollInterrupt(int64(index))
 			if key := arrayIndexToString(index); thisObject.hasProperty(key) {
 				if value := thisObject.get(key); iterator.call(call.runtime, callThis, value, int64Value(index), this).bool() {
 					return trueValue
@@ -597,6 +608,7 @@ func builtinArrayForEach(call FunctionCall) Value {
 	if iterator := call.Argument(0); iterator.isCallable() {
 		callThis := call.Argument(1)
 		for index := range length {
+			call.runtime.pollInterrupt(int64(index))
 			if key := arrayIndexToString(index); thisObject.hasProperty(key) {
 				iterator.call(call.runtime, callThis, thisObject.get(key), int64Value(index), this)
 			}
@@ -634,6 +646,7 @@ func builtinArrayFilter(call FunctionCall) Value {
 		callThis := call.Argument(1)
 		values := make([]Value, 0)
 		for index := range length {
+			call.runtime.pollInterrupt(int64(index))
 			if key := arrayIndexToString(index); thisObject.hasProperty(key) {
 				value := thisObject.get(key)
 				if iterator.call(call.runtime, callThis, value, index, this).bool() {
@@ -659,6 +672,7 @@ func builtinArrayReduce(call FunctionCall) Value {
 			if !initial {
 				found := false
 				for ; index < length; index++ {
+					call.runtime.pollInterrupt(int64(index))
 					if key := arrayIndexToString(index); thisObject.hasProperty(key) {
 						accumulator = thisObject.get(key)
 						index++
@@ -674,6 +688,7 @@ func builtinArrayReduce(call FunctionCall) Value {
 				accumulator = start
 			}
 			for ; index < length; index++ {
+				call.runtime.pollInterrupt(int64(index))
 				if key := arrayIndexToString(index); thisObject.hasProperty(key) {
 					accumulator = iterator.call(call.runtime, Value{}, accumulator, thisObject.get(key), index, this)
 				}
@@ -697,6 +712,7 @@ func builtinArrayReduceRight(call FunctionCall) Value {
 			if !initial {
 				found := false
 				for ; index >= 0; index-- {
+					call.runtime.pollInterrupt(int64(index))
 					if key := arrayIndexToString(index); thisObject.hasProperty(key) {
 						accumulator = thisObject.get(key)
 						index--
@@ -711,6 +727,7 @@ func builtinArrayReduceRight(call FunctionCall) Value {
 				accumulator = start
 			}
 			for ; index >= 0; index-- {
+				call.runtime.pollInterrupt(int64(index))
 				if key := arrayIndexToString(index); thisObject.hasProperty(key) {
 					accumulator = iterator.call(call.runtime, Value{}, accumulator, thisObject.get(key), index, this)
 				}
